@@ -157,6 +157,14 @@ def construct_asts():
             out.append(("path", None, True, [("child", ("name", "r"), []), ("child", ("*",), []), DOS, st]))
             out.append(("path", ("filter", ("path", None, True, [DOS, ("child", ("name", "a"), [])]), [("num", "1")]), False, [DOS, st]))
             out.append(("path", None, True, [DOS, ("child", ("name", "a"), []), DOS, st, ("parent", ("node",), [])]))
+    # `..` and `.` from attribute (and namespace) context nodes: parent::node() of an attribute is its element
+    for at in (("name", "x"), ("name", "id"), ("*",)):
+        for tail in ([("parent", ("node",), [])], [("self", ("node",), [])], [("parent", ("node",), []), ("parent", ("node",), [])],
+                     [("parent", ("node",), []), ("attribute", ("*",), [])], [("parent", ("*",), [("num", "1")])],
+                     [("ancestor", ("*",), [("num", "1")])], [("ancestor-or-self", ("node",), [])]):
+            out.append(("path", None, True, [DOS, ("attribute", at, [])] + tail))
+            out.append(("path", None, True, [DOS, ("child", ("*",), []), ("attribute", at, [("num", "1")])] + tail))
+            out.append(("path", None, True, [DOS, ("child", ("*",), [("path", None, False, [("attribute", at, [])] + tail)])]))
     for ax in G.AXES:
         for t in (("*",), ("node",)):
             for start in ("b", "a", "p", "s"):
@@ -803,9 +811,25 @@ def run_c19(chk):
     fresh = lib.run_lines(h, [lib.req("qfresh", t, b, *es) for t, b, es in qs], timeout=900, per_line_resume=True)
     model = lib.run_lines(lib.model_driver(), [lib.req("queryq", "rz", t, b, *es) for t, b, es in qs], timeout=900)
     # parsing twice: equal dumps and equal serializations
+    # ... including documents at the nesting limits read from the source, each parsed again after a document beyond the limit was
+    # refused in the same process (hidden parser state must not survive a refusal)
+    lims = []
+    for const, mk in (("MAX_ELEMENT_DEPTH", lambda n: "<a>" * n + "x" + "</a>" * n),
+                      ("MAX_GROUP_DEPTH", lambda n: "<!DOCTYPE a [<!ELEMENT a " + "(" * n + "b" + ",c)" * n + ">]><a/>")):
+        lim_ = lib.XML_CONSTS.get(const)
+        if lim_:
+            lims += [mk(lim_), mk(lim_ + 1), mk(lim_), mk(lim_ + 5), mk(lim_ - 1), mk(lim_)]
+    texts = lims + texts
     p1 = lib.run_lines(h, [lib.req("parse", t) for t in texts] + [lib.req("print", t) for t in texts], timeout=600)
     p2 = lib.run_lines(h, [lib.req("parse", t) for t in texts] + [lib.req("print", t) for t in texts], timeout=600)
     mfail, tdis = [], []
+    same_text = {}
+    for t, x in zip(texts + texts, p1):
+        # the same text within ONE run must also give the same answer every time
+        if t in same_text and same_text[t] != x and len(t) < 100000:
+            mfail.append((t[:300], "parse the same text again in one process", "parsing the same text twice gives different documents",
+                          same_text[t][:200] + " / " + x[:200]))
+        same_text.setdefault(t, x)
     with_failure = 0
     for (t, b, es), a, f, m in zip(qs, one, fresh, model):
         fa, _, doc = _fields(a, len(es))
